@@ -417,6 +417,44 @@ pub fn born<T>(kind: &'static str, p: *const T) {
     }
 }
 
+// ---- `std::thread::park` / `Thread::unpark` as used by sync::spsc (virtual in det mode)
+
+/// a stable small key per OS thread; the first use announces it as a `Thread` object so that the
+/// park / unpark events of this thread are named `tp@Thread<k>`
+pub fn thread_key(id: std::thread::ThreadId) -> usize {
+    use std::collections::HashMap;
+    use std::sync::Mutex;
+    static KEYS: Mutex<Option<HashMap<std::thread::ThreadId, usize>>> = Mutex::new(None);
+    let mut g = KEYS.lock().unwrap_or_else(|e| e.into_inner());
+    let m = g.get_or_insert_with(HashMap::new);
+    if let Some(k) = m.get(&id) {
+        return *k;
+    }
+    let k = m.len() + 1;
+    m.insert(id, k);
+    drop(g);
+    born("Thread", k as *const u8);
+    k
+}
+/// `std::thread::park()` of the current thread
+pub fn thread_park() {
+    if let Some(h) = hooks() {
+        if (h.park)(thread_key(std::thread::current().id()), None).is_some() {
+            return;
+        }
+    }
+    std::thread::park()
+}
+/// `thread.unpark()`
+pub fn thread_unpark(t: &std::thread::Thread) {
+    if let Some(h) = hooks() {
+        if (h.unpark)(thread_key(t.id())) {
+            return;
+        }
+    }
+    t.unpark()
+}
+
 // ---- actor attribution for coroutine context (live mode)
 
 /// `name|id` of a coroutine: id is the address of its handle
